@@ -18,8 +18,8 @@ enum { EM_PIPE, EM_MERGED, EM_PARENT, NEM };
 static const char *const em_names[] = { "pipe", "stdout", "parent" };
 
 /* parent loop variants */
-enum { PV_SEQ3, PV_SEQ4096, PV_SEQ70000, PV_ZERO_FIRST, PV_POLL, PV_NONBLOCK, PV_SEQ1, PV_DRAIN, NPV };
-static const char *const pv_names[] = { "seq-buf3", "seq-buf4096", "seq-buf70000", "zero-size-read-first", "poll-then-read", "nonblocking+poll", "seq-buf1", "drain" };
+enum { PV_SEQ3, PV_SEQ4096, PV_SEQ70000, PV_ZERO_FIRST, PV_POLL, PV_NONBLOCK, PV_SEQ1, PV_DRAIN, PV_NB_READ_FIRST, PV_SEQ_EINTR, NPV };
+static const char *const pv_names[] = { "seq-buf3", "seq-buf4096", "seq-buf70000", "zero-size-read-first", "poll-then-read", "nonblocking+poll", "seq-buf1", "drain", "nonblocking-read-then-poll", "seq-buf4096+EINTR" };
 
 struct script_def {
   const char *fmt; /* %d replaced by the size under test */
@@ -162,6 +162,10 @@ static void after_read(int s, int size, int r, const uint8_t *buf, int api)
     return;
   }
   if (r == REPROC_EWOULDBLOCK) { vk_hit(CL_WOULDBLOCK); return; }
+  {
+    struct vk_event *ie = api ? vk_last_event(api, C_READ) : NULL;
+    if (ie && ie->injected > 0 && r == -ie->injected) return; /* an interrupted read: the caller simply tries again */
+  }
   vk_violation("C02", "read-error", key, "read on %s returned %s", sn, hx_errname(r));
 }
 
@@ -299,7 +303,12 @@ static void c02_body(const struct c02cfg *c, int sched_bound)
   reproc_options o;
   memset(&o, 0, sizeof o);
   o.redirect.err.type = em == EM_PIPE ? REPROC_REDIRECT_PIPE : em == EM_MERGED ? REPROC_REDIRECT_STDOUT : REPROC_REDIRECT_PARENT;
-  int nonblocking = c->pv == PV_NONBLOCK;
+  int nonblocking = c->pv == PV_NONBLOCK || c->pv == PV_NB_READ_FIRST;
+  if (c->pv == PV_SEQ_EINTR) {
+    vk_cfg.faults_on = 1;
+    vk_cfg.fault_bound = 1;
+    vk_cfg.fault_calls = 1ull << C_READ;
+  }
   o.nonblocking = nonblocking;
   static uint8_t inbuf[3 * CAP];
   if (sd->uses_stdin == 2) {
@@ -324,7 +333,7 @@ static void c02_body(const struct c02cfg *c, int sched_bound)
   if (sd->uses_stdin == 1) feed_stdin(c->insize, nonblocking);
   else if (sd->uses_stdin == 0) hx_close(P, REPROC_STREAM_IN);
 
-  int bufsize = c->pv == PV_SEQ3 ? 3 : c->pv == PV_SEQ4096 ? 4096 : c->pv == PV_SEQ70000 ? 70000 : c->pv == PV_SEQ1 ? 1 : 64;
+  int bufsize = c->pv == PV_SEQ3 ? 3 : (c->pv == PV_SEQ4096 || c->pv == PV_SEQ_EINTR) ? 4096 : c->pv == PV_SEQ70000 ? 70000 : c->pv == PV_SEQ1 ? 1 : 64;
   int guard = 0;
   if (c->pv == PV_DRAIN) {
     reproc_sink sk = { c02_sink, NULL };
@@ -338,6 +347,21 @@ static void c02_body(const struct c02cfg *c, int sched_bound)
       if (is_pipe && dr == 0 && (!eof_seen[s] || got[s] != total_written(s)))
         vk_violation("C02", "bytes-lost", key, "%s: drain returned 0 with %u of %u bytes delivered (end of stream %s)", s == 1 ? "stdout" : "stderr", got[s],
                      total_written(s), eof_seen[s] ? "reported" : "not reported");
+    }
+  } else if (c->pv == PV_NB_READ_FIRST) {
+    /* a caller that tries to read first and polls only when told it would block */
+    for (int s = 1; s <= 2; s++) {
+      for (;;) {
+        if (guard++ > 20000) { vk_violation("C02", "loop-does-not-end", key, "the read/poll loop did not terminate"); break; }
+        int n = do_read(s, bufsize);
+        if (n == REPROC_EWOULDBLOCK) {
+          reproc_event_source src = { P, s == 1 ? REPROC_EVENT_OUT : REPROC_EVENT_ERR, 0 };
+          int pr = hx_poll(&src, 1, REPROC_INFINITE);
+          if (pr < 0) break;
+          continue;
+        }
+        if (n < 0) break;
+      }
     }
   } else if (c->pv == PV_POLL || c->pv == PV_NONBLOCK) {
     for (;;) {
@@ -356,11 +380,14 @@ static void c02_body(const struct c02cfg *c, int sched_bound)
         int z = do_read(s, 0);
         if (z < 0 && z != REPROC_EPIPE) vk_violation("C02", "zero-size-read", key, "a zero-size read returned %s", hx_errname(z));
       }
+      vk_faults_armed = c->pv == PV_SEQ_EINTR;
       for (;;) {
         if (guard++ > 20000) { vk_violation("C02", "loop-does-not-end", key, "the read loop did not terminate"); break; }
         int n = do_read(s, bufsize);
+        if (n == -EINTR && c->pv == PV_SEQ_EINTR) continue;
         if (n < 0) break;
       }
+      vk_faults_armed = 0;
       /* sticky afterwards */
       do_read(s, bufsize);
     }
@@ -428,7 +455,7 @@ static void c02_run(int tier, long cfg)
   const struct c02cfg *c = &cfgs[tier][cfg];
   /* all interleavings for short scripts and few parent calls, bounded otherwise */
   int small = c->size <= 7 && c->insize <= 7;
-  int bulk_reader = c->pv == PV_SEQ4096 || c->pv == PV_POLL || c->pv == PV_NONBLOCK || c->pv == PV_SEQ70000;
+  int bulk_reader = c->pv == PV_SEQ4096 || c->pv == PV_POLL || c->pv == PV_NONBLOCK || c->pv == PV_SEQ70000 || c->pv == PV_NB_READ_FIRST || c->pv == PV_SEQ_EINTR;
   int bound = tier ? (small ? (bulk_reader ? 4 : 3) : 2) : (small ? (bulk_reader ? 3 : 2) : 1);
   /* many tiny reads of a large payload: thousands of scheduling points per execution; keep those to the default schedule (quick) / one deviation */
   int bufsize = c->pv == PV_SEQ3 ? 3 : c->pv == PV_SEQ1 ? 1 : 64;
@@ -596,6 +623,17 @@ static void c17_stream_cfg(int nb, int ps, int opk, int ck)
         if (fd >= 0) ioctl(fd, FIONREAD, &avail);
         if (avail > 0) vk_violation("C17", "wouldblock-consistent", key17, "read answered would-block with %d byte(s) pending", avail);
         else vk_hit(CL17_NB_READ_EMPTY);
+        /* a would-block answer must leave the stream usable: whatever the child writes next has to be readable */
+        vk_cfg.sched_on = 0;
+        int wrote_before = (int) c->wrote[s];
+        if (vk_child_enabled(c)) vk_child_step(c);
+        int res2 = hx_read(p, s == 1 ? REPROC_STREAM_OUT : REPROC_STREAM_ERR, buf, 16);
+        if ((int) c->wrote[s] > wrote_before) {
+          if (res2 <= 0) vk_violation("C17", "stream-usable-after-wouldblock", key17, "after a would-block answer the child wrote %d byte(s) but the next read returned %s", (int) c->wrote[s] - wrote_before, hx_errname(res2));
+        } else if (res2 != REPROC_EWOULDBLOCK) {
+          vk_violation("C17", "stream-usable-after-wouldblock", key17, "a second read on an empty, open stream returned %s", hx_errname(res2));
+        }
+        vk_cfg.sched_on = 1;
       } else if (res == REPROC_EPIPE) {
         if (!c->closed_fd[s]) vk_violation("C17", "epipe-consistent", key17, "read answered closed-pipe although the child holds the stream open");
         else vk_hit(CL17_NB_READ_CLOSED);
